@@ -227,6 +227,7 @@ func plans(id, tier string) (Plan, bool) {
 		return Plan{Level: "exploration", Jobs: []Job{
 			{Pkg: pkgExtV1, Harness: "c15_archive", Instr: "v1", Params: "mode=singles", Shards: 16},
 			{Pkg: pkgExtV1, Harness: "c15_archive", Instr: "v1", Params: "mode=tuples", Shards: 16},
+			{Pkg: pkgExtV1, Harness: "c15_archive", Instr: "v1", Params: "mode=many", Shards: 5},
 			{Pkg: pkgExtV1, Harness: "c15_history", Instr: "v1", Shards: pick(4, 16)},
 		}}, true
 	case "C16":
@@ -247,6 +248,7 @@ func plans(id, tier string) (Plan, bool) {
 			{Pkg: pkgCP, Harness: "c18_lexer", Shards: 16, MaxProcs: 2},
 			{Pkg: pkgCP, Harness: "c18_lexer", Params: fmt.Sprintf("text=unicode;maxlen=%d", pick(4, 5)), Shards: 16, MaxProcs: 2},
 			{Pkg: pkgCP, Harness: "c18_chunks", Shards: pick(2, 8), MaxProcs: 2},
+			{Pkg: pkgCP, Harness: "c18_long", Shards: 8, MaxProcs: 2},
 		}}, true
 	case "C19":
 		var jobs []Job
